@@ -534,3 +534,36 @@ func VH_C19_ReverseRunes() {
 	symAssert(err == nil, "no-error")
 	symAssert(out == rev+"|"+s+"|"+strconv.Itoa(n)+"|"+strconv.Itoa(n), "reverse-of-characters")
 }
+
+// VH_C19_MergeTwice: merge concatenates and leaves its operands alone, also when the left operand has
+// room behind its last element: the same base (a merge result, a slice window of a longer list, a range,
+// a list from the context with spare capacity, a literal) is merged with two different lists and all three
+// are printed afterwards.
+func VH_C19_MergeTwice() {
+	n := 1 + symChoice(symParam("N", 3))
+	xs, ss := vhList(n, "abc")
+	spare := make([]interface{}, n, n+4)
+	copy(spare, xs)
+	bases := []struct{ expr, want string }{
+		{"xs|merge(['0'])", vhJoin(ss, ",") + ",0"},
+		{"(xs|merge(['0', '1']))|slice(0, " + strconv.Itoa(n) + ")", vhJoin(ss, ",")},
+		{"sp", vhJoin(ss, ",")},
+		{"sp|slice(0, 1)", ss[0]},
+		{"range(1, 3)", "1,2,3"},
+		{"[x0, 'l']", ss[0] + ",l"},
+		{"xs|merge([])|merge([])", vhJoin(ss, ",")},
+	}
+	b := bases[symChoice(len(bases))]
+	symTag("base:" + b.expr)
+	src := "{% set base = " + b.expr + " %}{% set a = base|merge(['x']) %}{% set b = base|merge(['y', 'z']) %}{{ a|join(',') }}|{{ b|join(',') }}|{{ base|join(',') }}|{{ a|length }}{{ b|length }}"
+	out, err := vhR(src, map[string]interface{}{"xs": xs, "sp": spare, "x0": ss[0]})
+	symCover("rendered")
+	symAssert(err == nil, "no-error")
+	nb := 1
+	for i := 0; i < len(b.want); i++ {
+		if b.want[i] == ',' {
+			nb++
+		}
+	}
+	symAssert(out == b.want+",x|"+b.want+",y,z|"+b.want+"|"+strconv.Itoa(nb+1)+strconv.Itoa(nb+2), "merge-concatenates-and-leaves-operands-alone")
+}
